@@ -8,14 +8,21 @@ Ties (all compared inside Coq by vm_compute, model = coq/theories/Stats.v):
     exact and "%.3f" prints the round-half-even of the exact value), and the Time / Mean / StDev / Active cells as
     correct roundings up to 1/1000 of a printed unit (they go through 2-3 double operations), and the exception
     (AssertionError for dur <= 0, KeyError for missing TSk) of malformed streams.
-  * end to end: generated FLEX files (one per rank) through Acelyzer(...).run() under several option sets; the model
-    is evaluated on the 'Cmpt Exec' slices of the EXPORTED json (args.orig_name when the name was rewritten) and must
-    reproduce the CSV files the same run wrote.
+  * end to end: generated FLEX files (one per rank, or one rank handed over in memory: -i api://jsonbuffer) through
+    Acelyzer(...).run() under several option sets and output formats; the model is evaluated on the 'Cmpt Exec'
+    slices of WHATEVER EXPORT the run produced - the json file (args.orig_name when the name was rewritten), the json
+    text returned by get_output_data() under --disable_file, the pandas frame of -f pddf (file or get_output_data();
+    Rank / Timestamp / Duration / Event Name, names kept by --keep_names / --disable_tb) - and must reproduce the CSV
+    files the same run wrote.
+  Magnitudes: both streams visit LONG calls (1.5e5 .. 6e5 us = several 1e8 cycles, inside one 32-bit counter epoch)
+  that are regular down to a few cycles next to ordinary kernels; repeated records: a kernel's records may be logged
+  two or three times (exactly repeated), every copy is a slice of the export and a call of the statistics.
   * names: the queue name calculate_stats creates vs Stats.name_val ('Cmpt Exec' containment, [_-]\\d+ masking).
   * file names: PipelineContextTool.generate_filename vs Stats.gen_filename.
 Oracle (independent of the model, exact Fractions): per (pid, masked name) recompute calls/total/mean/median/min/
 max/stdev, shares (and their sum per rank), no group missing / extra / twice, sum of Calls = number of slices, per
-rank elapsed = latest end - earliest start and active = total/elapsed, CSV files at <output stem>_summary/_active.csv.
+rank elapsed = latest end - earliest start and active = total/elapsed, CSV files at <output stem>_summary/_active.csv;
+the text file of a saved frame lists per rank as many kernel rows as the statistics counted calls.
 """
 import contextlib
 import copy
@@ -59,7 +66,9 @@ MANIFEST = {
             "rows/ranks are exactly the keys/ranks of the export (C12_export_agrees) and the stages registered after calculate_stats are exactly the listed "
             "ones, the only dropping one guarded by --filter (C12_stages_after_stats, on the generated registration "
             "program). The model is tied to the code on every run: direct drive of calculate_stats + drain with the CSV "
-            "files read back, and end to end through Acelyzer with the model evaluated on the exported slices.",
+            "files read back, and end to end through Acelyzer with the model evaluated on the slices of whatever export "
+            "the run produced (json file, get_output_data() text, pandas frame of -f pddf), including long regular "
+            "calls (several 1e8 cycles) and exactly repeated kernel records.",
     "note": "Print Assumptions: closed under the global context for every theorem. Trusted: Coq kernel + vm_compute; "
             "the hand-written model is tied by differential testing only (exact-grid stream: times multiples of "
             "2^-10 us, f a power of two); double rounding is not modelled: Time/Mean/StDev/Active cells are compared "
@@ -79,14 +88,18 @@ TRUSTED = [
     "(exact on the tie's grid: round half to even of the exact value)",
     "modelled, not verified: Python re.sub / 'in' on str (tied on adversarial names), dict insertion order, "
     "stability of sorted(reverse=True), hash((name, pid)) collision-free",
-    "end-to-end tie reads the combined exported json; a kernel slice is an X event whose args.orig_name (else name) "
-    "contains 'Cmpt Exec'",
+    "end-to-end tie reads the combined exported json (file, or get_output_data() text under --disable_file); a "
+    "kernel slice is an X event whose args.orig_name (else name) contains 'Cmpt Exec'; for -f pddf it reads the "
+    "frame returned by get_output_data(): a kernel slice is a row whose 'Event Name' contains 'Cmpt Exec', its rank "
+    "the 'Rank' cell (= pid for FLEX input); the saved text of the frame is only counted (kernel rows per rank)",
     "not modelled: 'PT Active' utilisation counters (collect_util), <out>_ts_analysis.csv, logging",
 ]
 ASSUMPTIONS = [
     "kernel slices have dur > 0 and args.TS1..TS5 (else the code raises AssertionError / KeyError; the model agrees)",
     "slices end at or after 0 and start below 1e30 (default event limiter) for 'elapsed = latest end - earliest start'",
     "no -F/--filter (it drops events after the statistics stage), no -t; pids are integers",
+    "-f pddf is claimed with --keep_names or --disable_tb only (the frame has no args.orig_name, rewritten names "
+    "cannot be masked as in the file); a rank's device cycles stay inside one 32-bit counter epoch",
     "the exported kernel slices (name = args.orig_name when renamed) are a permutation, as (masked name, pid, ts, "
     "dur), of the slices that reached calculate_stats (contract of C12_export_agrees on the later stages; checked "
     "by the end-to-end tie on every run, the stage list itself by C12_stages_after_stats)",
@@ -208,13 +221,17 @@ def scenario_files(sc):
         evs = []
         for k in rk["kernels"]:
             cs = k["c"]
+            rec = []
             for pi, ph in enumerate(PHASES):
                 if ph not in k["phases"]:
                     continue
                 uid += 1
-                evs.append({"ph": "X", "pid": rk["pid"], "tid": 7, "name": f'{k["base"]} {ph}',
+                rec.append({"ph": "X", "pid": rk["pid"], "tid": 7, "name": f'{k["base"]} {ph}',
                             "ts": rk["H"] + cs[pi] / f, "dur": (cs[pi + 1] - cs[pi]) / f,
                             "args": {**{f"TS{j + 1}": str(cs[j]) for j in range(5)}, "uid": uid}})
+            # "rep": the runtime logged this kernel's records rep times (exactly repeated records, uid included)
+            for _ in range(k.get("rep", 1)):
+                evs += copy.deepcopy(rec)
         for h in rk.get("host", []):
             uid += 1
             evs.append({"ph": "X", "pid": rk["pid"], "tid": 3, "name": h["name"], "ts": h["ts"], "dur": h["dur"],
@@ -224,34 +241,71 @@ def scenario_files(sc):
     return files
 
 
+def _kernel_slices_json(doc):
+    slices = []
+    for x in doc["traceEvents"]:
+        a = x.get("args") if isinstance(x.get("args"), dict) else {}
+        name = a.get("orig_name", x.get("name", ""))
+        if x.get("ph") == "X" and "Cmpt Exec" in name:
+            slices.append({"ph": "X", "name": name, "pid": x["pid"], "ts": x["ts"], "dur": x["dur"],
+                           "tsx": all(f"TS{k}" in a for k in range(1, 6)), "uid": a.get("uid", -1)})
+    return slices
+
+
+def _kernel_slices_frame(df):
+    """rows of the exported pandas frame (-f pddf): Rank / Timestamp / Duration / Event Name"""
+    slices = []
+    for rank, ts, dur, name in zip(df["Rank"], df["Timestamp"], df["Duration"], df["Event Name"]):
+        if isinstance(name, str) and "Cmpt Exec" in name:
+            slices.append({"ph": "X", "name": name, "pid": int(rank), "ts": float(ts), "dur": float(dur),
+                           "tsx": True, "uid": -1})
+    return slices
+
+
 def drive_e2e(case, workdir=None):
-    """Acelyzer end to end; observation = CSV rows + the 'Cmpt Exec' slices of the exported json."""
+    """Acelyzer end to end; observation = CSV rows + the 'Cmpt Exec' slices of whatever export the run produced:
+    the json file, the json text / pandas frame returned by get_output_data() (--disable_file, -f pddf)."""
     from aiu_trace_analyzer.core.acelyzer import Acelyzer
     d = tempfile.mkdtemp(prefix="c12e_", dir=workdir)
     o, e_ = _quiet()
+    fmt = case.get("fmt", "json")
+    nofile = bool(case.get("nofile"))
     try:
         os.makedirs(os.path.join(d, "in"))
         os.makedirs(os.path.join(d, "out"))
         paths, ids = [], set()
-        for pid, evs in scenario_files(case):
-            salt = 0
-            while True:
-                p = os.path.join(d, "in", f"r{pid}_{salt}.json")
-                jid = zlib.crc32(p.encode()) % 10000
-                if jid not in ids:
-                    ids.add(jid)
-                    break
-                salt += 1
-            with open(p, "w") as fh:
-                json.dump(evs, fh)
-            paths.append(p)
+        files = scenario_files(case)
+        in_data = None
+        if case.get("api_in") and len(files) == 1:
+            in_data = json.dumps(files[0][1]).encode()
+            paths = ["api://jsonbuffer"]
+        else:
+            for pid, evs in files:
+                salt = 0
+                while True:
+                    p = os.path.join(d, "in", f"r{pid}_{salt}.json")
+                    jid = zlib.crc32(p.encode()) % 10000
+                    if jid not in ids:
+                        ids.add(jid)
+                        break
+                    salt += 1
+                with open(p, "w") as fh:
+                    json.dump(evs, fh)
+                paths.append(p)
         out = os.path.join(d, "out", case.get("out", "res.json"))
         os.makedirs(os.path.dirname(out), exist_ok=True)
         argv = ["-i", ",".join(paths), "-o", out, "--freq", repr(case["f"]), "-D", "0"] + list(case.get("opts", []))
+        if fmt != "json":
+            argv += ["-f", fmt]
+        if nofile:
+            argv += ["--disable_file"]
+        data = None
         with o, e_:
             try:
-                ace = Acelyzer(argv)
+                ace = Acelyzer(argv) if in_data is None else Acelyzer(argv, in_data=in_data)
                 rc = ace.run()
+                if rc == 0 and (nofile or fmt != "json"):
+                    data = ace.get_output_data()
                 del ace
             except SystemExit as ex:
                 return {"err": "SystemExit%s" % ex.code}
@@ -262,20 +316,37 @@ def drive_e2e(case, workdir=None):
         fs, fa = csv_names(out)
         if not (os.path.exists(fs) and os.path.exists(fa)):
             return {"err": "CsvMissing", "detail": sorted(os.listdir(os.path.join(d, "out")))}
-        js = [out] if os.path.isfile(out) else \
-            [p for p in glob.glob(os.path.join(os.path.dirname(out), "*.json")) if "_worker_" not in os.path.basename(p)]
-        if len(js) != 1:
-            return {"err": "ExportMissing", "detail": sorted(os.listdir(os.path.join(d, "out")))}
-        slices = []
-        for x in json.load(open(js[0]))["traceEvents"]:
-            a = x.get("args") if isinstance(x.get("args"), dict) else {}
-            name = a.get("orig_name", x.get("name", ""))
-            if x.get("ph") == "X" and "Cmpt Exec" in name:
-                slices.append({"ph": "X", "name": name, "pid": x["pid"], "ts": x["ts"], "dur": x["dur"],
-                               "tsx": all(f"TS{k}" in a for k in range(1, 6)), "uid": a.get("uid", -1)})
+        extra = {}
+        if fmt == "pddf":
+            if data is None or not hasattr(data, "columns"):
+                return {"err": "ExportMissing", "detail": "get_output_data() returned no frame"}
+            try:
+                slices = _kernel_slices_frame(data)
+            except (KeyError, ValueError, TypeError) as ex:
+                return {"err": "BadFrame", "detail": repr(ex)}
+            if not nofile:
+                if not os.path.isfile(out):
+                    return {"err": "ExportMissing", "detail": sorted(os.listdir(os.path.join(d, "out")))}
+                # the text file of the frame: first cell of a row is the rank, kernel rows name 'Cmpt Exec'
+                per = {}
+                for ln in open(out).read().split("\n")[1:]:
+                    if "Cmpt Exec" in ln:
+                        _bump(per, ln.split()[0])
+                extra["file_kernel_rows"] = per
+        elif nofile:
+            if not isinstance(data, str):
+                return {"err": "ExportMissing", "detail": "get_output_data() returned no json text"}
+            slices = _kernel_slices_json(json.loads(data))
+        else:
+            js = [out] if os.path.isfile(out) else \
+                [p for p in glob.glob(os.path.join(os.path.dirname(out), "*.json"))
+                 if "_worker_" not in os.path.basename(p)]
+            if len(js) != 1:
+                return {"err": "ExportMissing", "detail": sorted(os.listdir(os.path.join(d, "out")))}
+            slices = _kernel_slices_json(json.load(open(js[0])))
         try:
-            return {"passed": [s["uid"] for s in slices], "rows": parse_summary(fs), "acts": parse_active(fa),
-                    "slices": slices}
+            return dict(extra, passed=[s["uid"] for s in slices], rows=parse_summary(fs), acts=parse_active(fa),
+                        slices=slices)
         except (BadCsv, ValueError, ArithmeticError) as ex:
             return {"err": "BadCsv", "detail": str(ex)}
     finally:
@@ -443,10 +514,18 @@ def judge(case, obs):
         out.append({"input": case, "expected": "every event returned unchanged", "observed": obs["passed"],
                     "signature": {"kind": "pass_through"}})
     if case["kind"] == "e2e":
-        want = sum(1 for rk in case["ranks"] for k in rk["kernels"] if "Cmpt Exec" in k["phases"])
+        want = sum(k.get("rep", 1) for rk in case["ranks"] for k in rk["kernels"] if "Cmpt Exec" in k["phases"])
         if len(slices) != want and not case.get("lossy"):
             out.append({"input": case, "expected": {"exec_slices": want}, "observed": {"exec_slices": len(slices)},
                         "signature": {"kind": "export_count"}})
+        if "file_kernel_rows" in obs:
+            # the saved text of the frame lists, per rank, as many kernel rows as the statistics counted calls
+            calls = {}
+            for rw in obs["rows"]:
+                calls[str(rw["pid"])] = calls.get(str(rw["pid"]), 0) + rw["calls"]
+            if calls != obs["file_kernel_rows"]:
+                out.append({"input": case, "expected": {"kernel_rows_in_export_file": calls},
+                            "observed": obs["file_kernel_rows"], "signature": {"kind": "export_file_rows"}})
     return out
 
 
@@ -494,7 +573,7 @@ def gen_dur(r, mode):
 
 
 def gen_direct(r):
-    mode = r.choice([0, 0, 1, 1, 2, 3])
+    mode = r.choice([0, 0, 1, 1, 2, 3, 4, 4])
     pids = r.sample([0, 1, 2, 3, 7, 12, 345, -1], r.randint(1, 3))
     names = [n + " Cmpt Exec" for n in gen_names(r, r.randint(1, 5))]
     if r.random() < 0.2:
@@ -502,6 +581,13 @@ def gen_direct(r):
     n = r.choice([0, 1, 1, 2, 3]) if r.random() < 0.15 else r.randint(2, 30)
     evs = []
     quirk = r.random() < 0.06
+    # mode 4 (magnitudes): some groups are LONG (1.5e5 .. 6e5 us per call = several 1e8 cycles) and regular down to a
+    # few grid steps, next to ordinary groups
+    long_of = {}
+    if mode == 4:
+        masked = sorted({MASK.sub("_[N]", nm) for nm in names})
+        for m in r.sample(masked, r.randint(1, max(1, len(masked) // 2))):
+            long_of[m] = (r.randint(150000 * G, 600000 * G), r.choice([2, 4, 9, 9, 16, 100, 4096]))
     for i in range(n):
         x = r.random()
         if x < 0.8:
@@ -510,7 +596,9 @@ def gen_direct(r):
             e = {"ph": "X", "name": r.choice(NONKERNEL)}
         else:
             e = {"ph": r.choice(["C", "M", "B", "E", "i", "XX"]), "name": r.choice(names + NONKERNEL)}
-        e.update({"pid": r.choice(pids), "ts": r.randint(0, 2000 * G) / G, "dur": gen_dur(r, mode), "tsx": True,
+        lg = long_of.get(MASK.sub("_[N]", e["name"]))
+        dur = (lg[0] + r.randint(0, lg[1])) / G if lg else gen_dur(r, 0 if mode == 4 else mode)
+        e.update({"pid": r.choice(pids), "ts": r.randint(0, 2000 * G) / G, "dur": dur, "tsx": True,
                   "uid": i + 1})
         if quirk:
             e["ts"] = -r.randint(1, 2000 * G) / G
@@ -534,30 +622,68 @@ def gen_direct(r):
     return case
 
 
+PDDF_OPTS = [["--keep_names"], ["--keep_names"], ["--disable_tb"], ["--keep_names", "--keep_prep"],
+             ["--keep_names", "-O", "tid"], ["--keep_names", "--drop_globals"], ["--keep_names", "-M"]]
+EPOCH = 1 << 32     # the device counters are 32 bit: a rank's cycles stay inside one epoch
+
+
 def gen_e2e(r):
     f = r.choice([512.0, 1024.0, 1024.0, 2048.0])
     nr = r.choice([1, 1, 2, 2, 3, 4])
     names = gen_names(r, r.randint(1, 4))
+    # magnitudes: one name group runs LONG (1.5e8 .. 6e8 cycles per call) and regular down to a few cycles
+    long_m = MASK.sub("_[N]", r.choice(names)) if r.random() < 0.3 else None
+    long_len = r.randint(150000000, 600000000)
+    long_jit = r.choice([4, 9, 9, 16, 100, 5000])
+    short = [n for n in names if MASK.sub("_[N]", n) != long_m] or ["aux"]
+    # repeated records: the runtime logged a kernel twice (three times)
+    p_rep = r.choice([0.15, 0.3, 1.0]) if r.random() < 0.35 else 0.0
     ranks = []
     for pid in range(nr):
         H = 1000.0 + r.randint(0, 64 * G) / G
         c = r.randint(1, 1 << 16)
         ks = []
         tie = r.random() < 0.3
-        for _ in range(r.randint(1, 9)):
+        plain_rank = long_m is not None and pid > 0 and r.random() < 0.4
+        for ki in range(r.randint(1, 9)):
             seg = [r.randint(1, 4096) for _ in range(4)]
             if tie:
                 seg[2] = 512 * r.randint(1, 3)
+            base = r.choice(names)
+            if long_m is not None and not plain_rank and ki < 2 and pid == 0:
+                base = r.choice([n for n in names if MASK.sub("_[N]", n) == long_m])
+            if MASK.sub("_[N]", base) == long_m:
+                if plain_rank or c + long_len + (1 << 20) >= EPOCH:
+                    base = r.choice(short)
+                else:
+                    seg[2] = long_len + r.randint(0, long_jit)
             cs = [c]
             for s in seg:
                 cs.append(cs[-1] + s)
             ph = ["Cmpt Exec"] + [p for p in ("DmaI", "Cmpt Prep", "DmaO") if r.random() < 0.5]
-            ks.append({"base": r.choice(names), "c": cs, "phases": ph})
+            k = {"base": base, "c": cs, "phases": ph}
+            if r.random() < p_rep:
+                k["rep"] = r.choice([2, 2, 2, 3])
+            ks.append(k)
             c = cs[-1] + r.randint(1, 8192)
         host = [{"name": "host op", "ts": 900.0 + i, "dur": 0.5} for i in range(r.randint(0, 2))]
         ranks.append({"pid": pid, "H": H, "kernels": ks, "host": host})
-    return {"kind": "e2e", "f": f, "opts": r.choice(E2E_OPTS), "out": r.choice(["res.json", "res.json", "my.run.json", "res", "run.v1/res", "run.v1/res.json"]),
+    case = {"kind": "e2e", "f": f, "opts": r.choice(E2E_OPTS),
+            "out": r.choice(["res.json", "res.json", "my.run.json", "res", "run.v1/res", "run.v1/res.json"]),
             "ranks": ranks}
+    # output formats / ways the export leaves the run: json file (default), json text through get_output_data()
+    # (--disable_file), pandas frame (-f pddf; names must stay unrewritten to be masked as in the file)
+    x = r.random()
+    if x < 0.3:
+        case["fmt"] = "pddf"
+        case["opts"] = r.choice(PDDF_OPTS)
+        if r.random() < 0.5:
+            case["nofile"] = True
+    elif x < 0.4 and "--tb" not in case["opts"]:
+        case["nofile"] = True
+    if nr == 1 and r.random() < 0.25:
+        case["api_in"] = True
+    return case
 
 
 def case_key(case):
@@ -673,7 +799,19 @@ def shrink(f, workdir=None, budget=150):
                     del c2["ranks"][ri]["kernels"][ki]
                     if still(c2):
                         case, changed = c2, True
-        if case.get("opts") and still(dict(case, opts=[])):
+        for ri in range(len(case["ranks"])):
+            for ki in range(len(case["ranks"][ri]["kernels"])):
+                if case["ranks"][ri]["kernels"][ki].get("rep", 1) > 1:
+                    c2 = copy.deepcopy(case)
+                    del c2["ranks"][ri]["kernels"][ki]["rep"]
+                    if still(c2):
+                        case = c2
+        for flag in ("api_in", "nofile"):
+            if case.get(flag):
+                c2 = {k: v for k, v in case.items() if k != flag}
+                if still(c2):
+                    case = c2
+        if case.get("opts") and case.get("fmt", "json") == "json" and still(dict(case, opts=[])):
             case = dict(case, opts=[])
     obs = drive(case, workdir)
     fs = [x for x in judge(case, obs) if x["signature"] == sig]
@@ -697,7 +835,9 @@ def run(ctx):
     terms, failures, seen, nontriv = [], [], set(), 0
     dist = {"kind": {}, "events": {}, "groups": {}, "ranks": {}, "outcome": {}, "e2e_opts": {}, "e2e_exec_slices": 0,
             "valid": 0, "malformed": 0, "outside_extremes_domain": 0, "rows_with_total_ties": 0,
-            "masked_name_collisions": 0, "single_call_groups": 0, "corpus": len(corpus)}
+            "masked_name_collisions": 0, "single_call_groups": 0, "corpus": len(corpus),
+            "e2e_export": {}, "e2e_in_memory_input": 0, "cases_with_repeated_records": 0,
+            "repeated_records_and_frame_export": 0, "long_regular_groups": 0}
     t_e2e = 0.0
     for case in cases:
         t0 = time.time()
@@ -721,6 +861,9 @@ def run(ctx):
             dist["masked_name_collisions"] += int(len({(s["pid"], s["name"]) for s in sl}) > len(obs["rows"]))
             if case["kind"] == "e2e":
                 dist["e2e_exec_slices"] += len(sl)
+            # groups of >= 2 calls, each >= 1e5 us, spread below 0.1 us (units of the cells: 1/1000 us)
+            dist["long_regular_groups"] += sum(1 for rw in obs["rows"] if rw["calls"] >= 2 and rw["min"] >= 10 ** 8
+                                               and rw["max"] - rw["min"] < 100)
         seen.add(k)
         _bump(dist["kind"], case["kind"])
         _bump(dist["outcome"], obs.get("err", "ok"))
@@ -728,6 +871,11 @@ def run(ctx):
         dist["outside_extremes_domain"] += int(not in_domain(case))
         if case["kind"] == "e2e":
             _bump(dist["e2e_opts"], " ".join(case.get("opts", [])) or "(default)")
+            _bump(dist["e2e_export"], case.get("fmt", "json") + (" get_output_data()" if case.get("nofile") else " file"))
+            dist["e2e_in_memory_input"] += int(bool(case.get("api_in")) and len(case["ranks"]) == 1)
+            rp = any(k.get("rep", 1) > 1 for rk in case["ranks"] for k in rk["kernels"])
+            dist["cases_with_repeated_records"] += int(rp)
+            dist["repeated_records_and_frame_export"] += int(rp and case.get("fmt") == "pddf")
         else:
             _bump(dist["events"], min(len(case["events"]) // 5 * 5, 30))
     idx_d = [j for j, c in enumerate(cases) if c["kind"] != "e2e"]
@@ -760,8 +908,12 @@ def run(ctx):
         "distinct_nontrivial": nontriv,
         "rule": "distinct cases (sha1 of the canonical case) whose run wrote >= 2 summary rows (>= 2 groups); "
                 f"streams: corpus {len(corpus)}, direct {n_direct} (exact grid 2^-10 us; 8% with one malformed kernel "
-                f"slice, 6% all-negative timestamps), end to end {n_e2e} (1-4 ranks, 1-9 kernels per rank, f in "
-                "{512,1024,2048} MHz, 8 option sets); plus name and file-name ties",
+                f"slice, 6% all-negative timestamps, 25% with long regular groups of 1.5e5-6e5 us per call), end to "
+                f"end {n_e2e} (1-4 ranks, 1-9 kernels per rank, f in "
+                "{512,1024,2048} MHz, 8 option sets; 30% with a long regular group of 1.5e8-6e8 cycles per call, 35% "
+                "with exactly repeated kernel records, export = json file / json text of get_output_data() / pandas "
+                "frame of -f pddf to file or get_output_data(), single ranks also through api://jsonbuffer); plus "
+                "name and file-name ties",
         "samples": [cases[len(corpus)], cases[len(corpus) + n_direct]] if len(cases) > len(corpus) + n_direct else [],
         "mismatches": mism, "oracle_failures": shr,
         "ties": [{"name": "Stats.tie_val = CSV files of calculate_stats/drain (direct) and of Acelyzer (end to end)",
